@@ -12,7 +12,12 @@
             (vlib.engine text + one injected violation) and the REAL gate runs on
             it: _scan/_verify in-process for all, `python -m dawgie.tools.compliant`
             as a process for a seeded sample; every accepted package goes through
-            dag.Construct / schedule.build / periodics / organize / next_job_batch
+            dag.Construct / schedule.build / periodics / organize / next_job_batch;
+            for a sample of ENVIRONMENT CASES [sub, dec, at] (spec: EnvCasesOf) the command is
+            also run where a decoy copy of the same base package (same layout, opposite
+            compliance: violating submission + conforming decoy, and the reverse) is
+            importable through PYTHONPATH (front / back): the verdict must be that of the
+            submitted checkout
  4. TRACE   TLC validates verdict = Accept(d) etc. on the records
             (spec/Gate_Trace.tla); Python only counts and reports
 
@@ -45,6 +50,8 @@ import random
 from vlib import core, tlc
 
 CLI_SAMPLE = {'quick': 32, 'thorough': 640}
+ENV_SAMPLE = {'quick': 8, 'thorough': 160}
+UNCLAIMED = {'alg_norun', 'sv_noview', 'val_nofeatures'}
 PER_STRATUM_QUICK = 8
 
 
@@ -74,10 +81,10 @@ def model_runs(chk, thorough):
     Gate_MC on the claimed descriptors and exports all cases; thorough: additionally Gate_MC on its
     own and the traversal of the pinned tree (informational list of disagreements), side by side'''
     runs = {
-        'gen': ('Gate_Gen.tla', dict(spec='GenSpec', constants={'Pinned': 'FALSE'}, invariants=['GenOK', 'GenTypeOK', 'GenWalkAgrees', 'Emit']), 1),
+        'gen': ('Gate_Gen.tla', dict(spec='GenSpec', constants={'Pinned': 'FALSE'}, invariants=['GenOK', 'GenTypeOK', 'GenWalkAgrees', 'GenCmdAgrees', 'Emit']), 1),
     }
     if thorough:
-        runs['mc'] = ('Gate_MC.tla', dict(spec='Spec', constants={'Pinned': 'FALSE'}, invariants=['TypeOK', 'WalkAgrees']), 4)
+        runs['mc'] = ('Gate_MC.tla', dict(spec='Spec', constants={'Pinned': 'FALSE'}, invariants=['TypeOK', 'WalkAgrees', 'CmdAgrees']), 4)
         runs['mc_pinned'] = ('Gate_MC.tla', dict(spec='Spec', constants={'Pinned': 'TRUE'}, invariants=['TypeOK', 'Report']), 1)
     with concurrent.futures.ThreadPoolExecutor(3) as ex:
         futs = {n: ex.submit(_tlc, chk, n, m, c, w) for n, (m, c, w) in runs.items()}
@@ -86,10 +93,13 @@ def model_runs(chk, thorough):
         _book(chk, n, m, c, res[n])
     cases = [json.loads(r[1]) for r in tlc.printed(res['gen'], 'CASE')]
     names = tlc.printed(res['gen'], 'VIOLNAMES')
+    ats = tlc.printed(res['gen'], 'ENVATS')
+    if not ats:
+        raise core.Machinery('generation produced no environment dimension')
     disagree = [(json.loads(r[1]), r[2]) for r in tlc.printed(res['mc_pinned'], 'DISAGREE')] if thorough else None
     if not cases or not names:
         raise core.Machinery('generation produced no cases')
-    return cases, set(json.loads(names[0][1])), disagree
+    return cases, set(json.loads(names[0][1])), disagree, sorted(json.loads(ats[0][1]))
 
 
 def dkey(d):
@@ -136,6 +146,38 @@ def choose_cli(cases, n, rnd):
     return set(pick)
 
 
+def layout(d):
+    return (tuple(sorted(d['kinds'])), d['shape'], d['vals'], d['evs'])
+
+
+def choose_env(cases, ats, n, rnd):
+    '''environment cases of the command (spec: EnvCasesOf): index of the submitted descriptor -> {dec, at}.
+    n seeded pairs (violating descriptor, its conforming twin) among the selected cases, on distinct layouts and
+    distinct clauses as far as possible; the roles (which of the two is submitted) and `at` rotate so that every
+    (role, at) combination occurs.  Both members of a pair are cases of this run, so the verdict of the gate on the
+    decoy ALONE is validated by the decoy's own trace.'''
+    twin = {layout(d): i for i, d in enumerate(cases) if d['viol'] == 'none'}
+    cand = [i for i, d in enumerate(cases) if d['viol'] not in UNCLAIMED | {'none', 'no_factory'} and layout(d) in twin]
+    rnd.shuffle(cand)
+    out, used_l, used_v = {}, set(), set()
+    for strict in (True, False):
+        for i in cand:
+            d = cases[i]
+            if len(out) >= n:
+                break
+            if i in out or layout(d) in used_l or (strict and d['viol'] in used_v):
+                continue
+            j = len(out)
+            at = ats[(j // 2) % len(ats)]
+            used_l.add(layout(d))
+            used_v.add(d['viol'])
+            if j % 2 == 0:  # violating submission, conforming copy deployed
+                out[i] = {'dec': cases[twin[layout(d)]], 'at': at}
+            else:  # conforming submission, violating copy deployed
+                out[twin[layout(d)]] = {'dec': d, 'at': at}
+    return out
+
+
 def execute(chk, pid, jobs):
     files = chk.run_harness('gate_h', jobs)
     chk.traces += len(jobs)
@@ -165,7 +207,11 @@ def execute(chk, pid, jobs):
             if clause.startswith(pid + '.'):
                 detail = {k: obs[k] for k in ('v_list', 'v_scan', 'fired', 'cli_run', 'cli_rc', 'sched_run', 'sched_ok', 'err')}
                 detail.update(d=t['d'], event=ev)
-                chk.add_violation(clause, signature(t['d'], ev), detail, {'job': dict(byid[tid], cli=True)})
+                sig = signature(t['d'], ev)
+                if ev == 'cli_env':
+                    detail.update(decoy=t['dec'], decoy_at=t['at'])
+                    sig += f':decoy={t["dec"]["viol"]}@{t["at"]}'
+                chk.add_violation(clause, sig, detail, {'job': dict(byid[tid], cli=True)})
     return rows, recs
 
 
@@ -178,7 +224,7 @@ def run(pid, tier, seed, replay=None):
         execute(chk, pid, [job])
         return chk.finish('replay of one recorded descriptor')
     # 1 + 2
-    cases, names, disagree = model_runs(chk, tier == 'thorough')
+    cases, names, disagree, ats = model_runs(chk, tier == 'thorough')
     covered = {d['viol'] for d in cases}
     if names - covered:
         raise core.Machinery(f'vacuous: no descriptor carries {sorted(names - covered)}')
@@ -187,10 +233,13 @@ def run(pid, tier, seed, replay=None):
     if tier != 'thorough':
         cases = stratified(cases, PER_STRATUM_QUICK, rnd)
     cli = choose_cli(cases, CLI_SAMPLE.get(tier, CLI_SAMPLE['quick']), rnd)
+    env = choose_env(cases, ats, ENV_SAMPLE.get(tier, ENV_SAMPLE['quick']), rnd)
     jobs = [{'id': i + 1, 'd': d, 'cli': i in cli} for i, d in enumerate(cases)]
+    for i, e in env.items():
+        jobs[i]['env'] = e
     rows, recs = execute(chk, pid, jobs)
     # counts (measured on the records)
-    n = dict(conforming=0, violating=0, observed=0, accepted=0, rejected=0, cli=0, sched=0, sched_ok=0)
+    n = dict(conforming=0, violating=0, observed=0, accepted=0, rejected=0, cli=0, sched=0, sched_ok=0, env_sub_conforming=0, env_sub_violating=0)
     claimed_viol = set()
     for t in recs.values():
         d = t['d']
@@ -205,10 +254,12 @@ def run(pid, tier, seed, replay=None):
         for s in t['steps']:
             if s['ev'] == 'cli':
                 n['cli'] += 1
+            if s['ev'] == 'cli_env':
+                n['env_sub_conforming' if d['viol'] == 'none' else 'env_sub_violating'] += 1
             if s['ev'] == 'sched' and s['obs']['v_list']:
                 n['sched'] += 1
                 n['sched_ok'] += bool(s['obs']['sched_ok'])
-    for k in ('conforming', 'violating', 'accepted', 'rejected', 'cli', 'sched'):
+    for k in ('conforming', 'violating', 'accepted', 'rejected', 'cli', 'sched', 'env_sub_conforming', 'env_sub_violating'):
         if not n[k]:
             raise core.Machinery(f'vacuous run: no {k} record')
     bad_ids = {r[1] for r in rows['CLAUSE'] if r[3] == 'verify'}
@@ -224,6 +275,10 @@ def run(pid, tier, seed, replay=None):
         accepted_by_gate=n['accepted'],
         rejected_by_gate=n['rejected'],
         cli_runs=n['cli'],
+        cli_runs_with_decoy_copy=n['env_sub_conforming'] + n['env_sub_violating'],
+        decoy_conforming_submission_violating=n['env_sub_violating'],
+        decoy_violating_submission_conforming=n['env_sub_conforming'],
+        decoy_positions=len({t['at'] for t in recs.values() if t['at'] != '-'}),
         accepted_and_scheduled=n['sched'],
         scheduled_ok=n['sched_ok'],
         observed_unclaimed=n['observed'],
@@ -247,12 +302,14 @@ def run(pid, tier, seed, replay=None):
         'bounded space: package under test with one or two algorithms per offered factory, one state vector with two values each, '
         'at most one dependency and one feedback reference per algorithm, two events; exactly one injected violation per package',
         'violations are the clauses of the code of rule_01..rule_11; run()/view()/features() missing is observed, not claimed',
+        'environment of the command: at most one other importable copy of the base package, of the same layout and of the opposite compliance, '
+        'reachable through PYTHONPATH (front or back); copies installed by other means (site-packages, .pth files) are not generated',
         'generated engines use the factory/bot pattern (scan.deprecated_factories); environment stubs: virtual reactor, svg writer, db.targets',
     ]
     return chk.finish(
         'cases = the descriptors TLC enumerates (kind subset x shape x rule clause x applicable position, plus the conforming ones; thorough: all, '
         'quick: all conforming + 8 seeded members of every (clause, kind, element) stratum); each is '
-        'written to disk as a package tree and judged by the real _scan/_verify (all) and the command (sample); TLC validates the verdicts. '
+        'written to disk as a package tree and judged by the real _scan/_verify (all) and the command (sample; a further sample with a decoy copy of the same package on PYTHONPATH); TLC validates the verdicts. '
         'non-trivial = distinct descriptors materialised and judged (all of them: every one exercises all eleven rules)',
         exhaustive=(tier == 'thorough'),
     )
